@@ -4,7 +4,10 @@
    behaviour of netCDF-C / netCDF4-python (identity on the disk image; cells equal to _FillValue or
    missing_value masked; unlimited dimensions as long as what was written).  That assumption is part
    of the model (load_cells, conv_dim), is exercised by the correspondence on all four flavours, and
-   is NOT verified here: every theorem below is `_partial` in that sense. *)
+   is NOT verified here.  The model has two stages: impl_convert (what PseudoNetCDF asks netCDF to write:
+   verified against the raw file content read with auto-masking switched off) and nc_load (the assumed
+   reader).  Theorems named `_partial` depend on nc_load; C07_written_cells, C07_dimension_request,
+   C07_fill_precedence, C07_masked_any_fill, C07_attrs_kept are about stage 1 alone. *)
 From PNC Require Import Base.Util Model.Persist Proofs.PersistProofs.
 Local Open Scope Z_scope.
 
@@ -25,6 +28,22 @@ Theorem C07_cells_partial : forall fill mv d cells,
   load_cells fill mv (store_cells d cells) = cells.
 Proof. exact load_store_cells. Qed.
 Print Assumptions C07_cells_partial.
+
+(* ---- stage 1 alone: statements about PseudoNetCDF's own decisions, with NO assumption on netCDF ---- *)
+
+(* for every variable that has any fill value: the array handed to netCDF holds the input value at every
+   unmasked position and the value declared as _FillValue at every masked position (all shapes) *)
+Theorem C07_written_cells : forall dflt v c,
+  chosen_fill v = Some c ->
+  Forall2 (fun cell x => match cell with Some y => x = y | None => x = c end) (p_cells v) (i_raw (convert_var dflt v)).
+Proof. exact convert_raw_cells. Qed.
+Print Assumptions C07_written_cells.
+
+(* a dimension is created with size None exactly when it is unlimited *)
+Theorem C07_dimension_request : forall vs d,
+  id_size (convert_dim vs d) = (if d_unlim d then None else Some (d_len d)).
+Proof. exact convert_dim_request. Qed.
+Print Assumptions C07_dimension_request.
 
 (* fill value choice: missing_value > fill_value > (masked array fill) > _FillValue *)
 Theorem C07_fill_precedence : forall v,
